@@ -107,7 +107,7 @@ def main():
         out = "/tmp/auditout/" + pid
         txt = HEAD.format(wt="/tmp/audit/" + pid, out=out, id=pid, title=p["title"], statement=p["statement"],
                           qtext=p["quantifier"]["text"], files=", ".join(p["anchors"]["files"]),
-                          method=METHODS[rnd].format(out=out))
+                          method=METHODS[rnd].format(out=out, wt="/tmp/audit/" + pid))
         open("/tmp/audit/prompt_%s.txt" % pid, "w").write(txt)
     print("wrote %d prompts for audit round %d" % (len(props), rnd))
 
